@@ -132,6 +132,15 @@ def run(tier):
         for hname, tmpl, args, places in hosts:
             v, dangling, head, refs = concretise(st["s"], r2, args)
             cases.append((st["s"], hname, tmpl, args, v, dangling, head, refs, places))
+    # chains with every link on an argument of its own (five distinct, in-scope arguments): a link that is lost shows as a missing mention
+    row5 = ("mrow5", "<math><mrow{I}>" + "<mo>+</mo>".join(f"<mn arg='{a_}'>{n_}</mn>" for a_, n_ in zip("abcde", ("11", "22", "33", "44", "55"))) + "</mrow></math>",
+            dict(zip("abcde", ("11", "22", "33", "44", "55"))), {a_: "child" for a_ in "abcde"})
+    for hi_, head_ in enumerate(HEADS[:3] + ["f"]):
+        for links in (2, 3, 4, 5):
+            for order in ("abcde", "edcba", "acebd"):
+                refs_ = list(order[:links])
+                v_ = head_ + "".join(f"(${r_})" for r_ in refs_)
+                cases.append((cl("f" * len(head_) + "($f)" * links), row5[0], row5[1], row5[2], v_, 0, head_, refs_, row5[3]))
     # the same VALUE on one element after another in one session: whether a value is legal depends on the element it sits on (what
     # its references reach), so a verdict reached for one element must not carry over to the next
     n_main = len(cases)
